@@ -21,10 +21,10 @@ IMPORTS = ("From Ford Require Import Base.Str Base.Path Out.Names Out.External O
            "Definition rq (i : nat) (d n : str) : req := {| r_id := i; r_dir := d; r_name := n |}.")
 THEOREMS = ["C16_roundtrip", "C16_import_export", "C16_target_unique", "C16_target_written_partial",
             "C16_target_written_refuted", "C16_export_exact_partial", "C16_export_exact_refuted_private_listed",
-            "C16_export_exact_refuted_public_unlisted", "C16_local_first", "C16_local_first_find_partial",
-            "C16_local_first_find_refuted", "C16_load_errors_contained", "C16_load_all_or_nothing",
+            "C16_export_exact_refuted_public_unlisted", "C16_local_first", "C16_local_first_find",
+            "C16_load_errors_contained", "C16_load_all_or_nothing",
             "C16_tables_fingerprint"]
-REGIONS = {1: "export-follows-display", 6: "external-before-local-entity"}
+REGIONS = {1: "export-follows-display"}
 
 
 def cs(x):
@@ -438,6 +438,36 @@ def e2e_witnesses(chk):
                                                         f"description)", "links": into_a}, True)
     finally:
         p.close()
+    # (c) [[shape]]: B has a type `shape`, the external project a module `shape` (served through a mocked urlopen)
+    import ford.external_project as ep
+    p = D.Pair(a_src="module shape\n  !! module shape of A\n  implicit none\n  integer :: n = 1\nend module shape\n")
+    orig = ep.urlopen
+    try:
+        err, _ = p.build_A()
+        if err:
+            chk.violation("failing-input", {"what": "FORD failed on the demonstration project A", "error": err}, True)
+            return
+        payload = (p.root / "A" / "doc" / "modules.json").read_bytes()
+        ep.urlopen = lambda *a, **k: I.FakeResponse(payload)
+        err, log = p.build_B("module mb\n  !! module of B\n  implicit none\n  type :: shape\n    !! B's own type\n"
+                             "    integer :: k\n  end type\nend module mb\n\nmodule mb2\n"
+                             "  !! another module of B, see [[shape]]\n  implicit none\nend module mb2\n",
+                             "https://a.example.org/doc/")
+        chk.count(("witness", "local-first"), sample={"B": "[[shape]] with type shape in B, module shape in A",
+                                                      "error": err})
+        if err:
+            chk.violation("failing-input", {"what": "FORD failed on B", "error": err, "log": log[-1500:]}, True)
+        else:
+            page = p.root / "B" / "doc" / "module" / "mb2.html"
+            hrefs = [h for h, l in page_links(page) if l == "shape"]
+            if not hrefs or any(h.startswith("https://a.example.org") for h in hrefs):
+                chk.disagreements += 1
+                if not known_once(chk, "external-before-local-entity"):
+                    chk.violation("failing-input", {"what": "[[shape]] is linked into the external project although "
+                                                            "B defines a type `shape`", "links": hrefs}, True)
+    finally:
+        ep.urlopen = orig
+        p.close()
 
 
 def end_to_end(chk, rng, npairs, nremote):
@@ -639,7 +669,7 @@ def run(chk):
     # (2) loading: corpus (witnesses of the findings first), then descriptions in every state
     descriptions = [b.modules_json for b in built if b.modules_json is not None]
     corpus = json.load(open(core.VERIF / "corpus" / "C16" / "cases.json"))
-    for k in range(len(corpus["load"]) + (300 if quick else 6000)):
+    for k in range(len(corpus["load"]) + (250 if quick else 6000)):
         lc = load_case(rng, descriptions, corpus["load"][k] if k < len(corpus["load"]) else None)
         if lc is None:
             continue
@@ -654,7 +684,7 @@ def run(chk):
         meta.append(lc[1])
         chk.count(("load-seq", lc[0]), nontrivial=True)
     # (3) the two re-basing primitives
-    for term, m in join_cases(rng, 250 if quick else 5000):
+    for term, m in join_cases(rng, 200 if quick else 5000):
         cases.append(term)
         meta.append(m)
         chk.count(("join", m["base"], m["rel"]), nontrivial=True)
@@ -671,7 +701,7 @@ def run(chk):
         b.close()
     # (4) end to end: B built against A's output (local path; http.server on 127.0.0.1), links checked in the HTML
     e2e_witnesses(chk)
-    end_to_end(chk, rng, 14 if quick else 150, 4 if quick else 40)
+    end_to_end(chk, rng, 12 if quick else 150, 4 if quick else 40)
     if not quick:
         chk.coqchk(["Ford.Props.C16"])
 
